@@ -29,9 +29,9 @@ const MODELS: [(&str, M); 10] = [
   ("D", M { ns: 3, name: 3, content: 5 }),
   ("F", M { ns: 4, name: 4, content: 0 }),
   ("G", M { ns: 2, name: 2, content: 6 }),
+  ("F2", M { ns: 4, name: 4, content: 8 }),
   // thorough tier only
   ("H", M { ns: 3, name: 1, content: 7 }),
-  ("F2", M { ns: 4, name: 4, content: 8 }),
   ("J", M { ns: 5, name: 5, content: 9 }),
 ];
 
@@ -76,7 +76,7 @@ impl Op {
 
 fn alphabet(thorough: bool) -> Vec<Op> {
   let mut v = vec![];
-  let (nm, nid) = if thorough { (MODELS.len(), 5u8) } else { (7, 4u8) };
+  let (nm, nid) = if thorough { (MODELS.len(), 5u8) } else { (8, 4u8) };
   for k in 0..nm {
     v.push(Op::Add(k));
   }
@@ -253,9 +253,30 @@ pub fn run() {
   let mut capped = false;
   let mut bad_transitions = 0u64;
   let empty = FeelContext::default();
-  while let Some((hist, r)) = frontier.pop_front() {
+  // Second phase: histories are NOT merged by the state they reach. The canonical state holds what the snapshot shows;
+  // anything else the workspace may remember about its past (say, about a model that once failed to build) is followed
+  // by running every sequence of up to `unmerged_depth` operations over the models that share their ids (the one that
+  // does not build, the one that does, one unrelated), their removal, clear and deploy.
+  let find = |label: &str| MODELS.iter().position(|m| m.0 == label).unwrap();
+  let unmerged_ops: Vec<Op> = vec![Op::Add(find("F")), Op::Add(find("F2")), Op::Replace(find("F")), Op::Replace(find("F2")), Op::Add(find("A")), Op::Remove(4, 4), Op::Clear, Op::Deploy];
+  let unmerged_depth = if thorough { 6 } else { 5 };
+  let mut unmerged_histories = 0u64;
+  let mut merged = true;
+  loop {
+    let (hist, r) = match frontier.pop_front() {
+      Some(x) => x,
+      None if merged => {
+        merged = false;
+        frontier.push_back((vec![], Ref::default()));
+        continue;
+      }
+      None => break,
+    };
     max_depth = max_depth.max(hist.len());
-    for op in &ops {
+    if !merged {
+      unmerged_histories += 1;
+    }
+    for op in if merged { &ops } else { &unmerged_ops } {
       // a fresh real workspace brought to the state by replaying the history
       let mut w = Workspace::new(None);
       for h in &hist {
@@ -374,6 +395,14 @@ pub fn run() {
         bad_transitions += 1;
         continue;
       }
+      if !merged {
+        if hist.len() + 1 < unmerged_depth {
+          let mut h = hist.clone();
+          h.push(*op);
+          frontier.push_back((h, next_ref));
+        }
+        continue;
+      }
       let key = (after, next_ref.clone());
       if !seen.contains(&key) {
         if seen.len() >= cap {
@@ -396,9 +425,10 @@ pub fn run() {
   run.set("traces_validated_against_impl", json!(transitions));
   run.set("evaluations", json!(transitions * 4));
   run.set("distinct_nontrivial", json!(seen.len()));
-  run.set("rule", json!("canonical states (snapshot of the four collections of the real workspace + identity of the stored contents) reached by breadth-first search to closure over 32 (quick) / 47 (thorough) operations: add / replace of 7 / 10 models (identical ids with different content, same namespace other name, other namespace same name, crossing, disjoint, one that does not build and one with its ids that does), remove of every (namespace, name) pair, clear, deploy"));
+  run.set("rule", json!("canonical states (snapshot of the four collections of the real workspace + identity of the stored contents) reached by breadth-first search to closure over 34 (quick) / 47 (thorough) operations: add / replace of 8 / 10 models (identical ids with different content, same namespace other name, other namespace same name, crossing, disjoint, one that does not build and one with its ids that does), remove of every (namespace, name) pair, clear, deploy; then every history of up to 5 (quick) / 6 (thorough) operations over 8 operations on the models that share their ids, without merging histories that reach the same state"));
   run.set("exhaustive", json!(!capped));
   run.set("max_depth", json!(max_depth));
+  run.set("unmerged_histories", json!({"operations": unmerged_ops.iter().map(|o| o.show()).collect::<Vec<_>>(), "depth": unmerged_depth, "histories": unmerged_histories}));
   run.set("violating_transitions_not_expanded", json!(bad_transitions));
   run.set("operations", json!(ops.len()));
   run.set("state_cap", json!(cap));
